@@ -339,7 +339,7 @@ def parse_body(mod, f):
         if m:
             cur = blocks.setdefault('%' + m.group(1), []); continue
         if ln.lstrip().startswith('switch '):
-            while not ln.rstrip().endswith(']'):
+            while not (ln.rstrip().endswith(']') or lines[i - 1].strip().startswith(']')):
                 ln += ' ' + lines[i].strip(); i += 1
         toks = tokenize(ln)
         if not toks: continue
@@ -1233,6 +1233,8 @@ class FnEmit:
         if n.startswith(INTRIN_IGNORE): return [';']
         if n.startswith('llvm.memcpy') or n.startswith('llvm.memmove'):
             f = 'memcpy' if 'memcpy' in n else 'memmove'
+            # symbolic length: a bounded byte loop (CBMC's array-copy model of memcpy with a symbolic size exhausts memory)
+            if I.args[2].kind != 'int': f = 'verif_' + f + '_n'
             return ['%s(%s, %s, %s);' % (f, args[0], args[1], args[2])]
         if n.startswith('llvm.memset'): return ['memset(%s, %s, %s);' % (args[0], args[1], args[2])]
         if n.startswith('llvm.expect'): return ['%s%s;' % (asg, args[0])]
